@@ -1,7 +1,7 @@
 from . import COMMON_TB, NOTE
 
 PROP = {
-    "modules": ["Proofs.C06"],
+    "modules": ["Proofs.C06", "Proofs.C06E2E"],
     "streams": [{"name": "parse"}],
     "rule": "parse: every sequence of <=4 (quick) / <=5 (thorough) tokens over the 22-symbol alphabet {8 block opens, "
             "their 8 end tags, else, elsif, when, assign, an object, text}, then up to 5 (quick) / 6 (thorough) tokens over "
@@ -34,7 +34,17 @@ TEXT = {
             "tree (parse_unparse); printing the accepted tree gives back the tokens up to what the tree does not keep "
             "(unparse_parse); the accepted tree is well formed (parse_wf); the block-stack pop never panics "
             "(parseTokens_no_panic); the only errors are objSyntax / notInside / unterminated, located at the first offending "
-            "token resp. the innermost open tag (parse_result_cases, first_error_*, unterminated_*). The model is compared with "
+            "token resp. the innermost open tag (parse_result_cases, first_error_*, unterminated_*). End to end, on source bytes and "
+            "about the whole pipeline `run` (Proofs.C06E2E, for every value layer, file system, fuel and environment; toks = the "
+            "token list of the source): the token list is not derivable in the nesting grammar exactly when parsing returns an "
+            "error, which is notInside / unterminated / an object's syntax error, is the result of `run` (so nothing is rendered) "
+            "and is located at a tag or object token whose line is the start line plus the newlines of the source text before it "
+            "(run_rejects_iff_not_derivable, run_parse_error); a derivable source runs as the compilation and rendering of the "
+            "derived tree (run_of_derives); a compile error notInside/unterminated implies that the tokens are not well nested, "
+            "since the compile phase never produces these messages (nesting_error_implies_not_well_nested); and for sources all "
+            "of whose objects hold expressions, not well nested <=> compilation (hence run) fails with notInside or unterminated "
+            "(not_well_nested_iff_nesting_error). These assume that no object token has arguments outside the expression-lexer "
+            "model (negative-zero literal), where the model answers `unmodelled` before parsing. The model is compared with "
             "cfg.Parse on exhaustive token sequences and random nested templates each run; an independent recogniser and a "
             "reference expansion are evaluated on the real parser and renderer.",
     "design_ref": "DESIGN.md 6 C06",
